@@ -91,14 +91,36 @@ def main():
             # regression tier: committed replays of confirmed (and repaired) defects run first
             import glob
 
+            # (each in a forked child: whatever a replay leaves behind in the tested package - caches, registries,
+            # class attributes - must not reach the campaign shards, which are forked from this process)
             for path in sorted(glob.glob(os.path.join(HERE, "replays", f"{prop}-*.json"))):
                 with open(path) as f:
                     body = json.load(f)
-                try:
-                    mod.replay_trace(body["trace"])
+                r, w = os.pipe()
+                pid = os.fork()
+                if pid == 0:
+                    os.close(r)
+                    try:
+                        mod.replay_trace(body["trace"])
+                        out = {"ok": True}
+                    except Violation as v:
+                        out = {"ok": False, "key": v.key, "what": v.what}
+                    except BaseException as e:  # noqa
+                        out = {"ok": None, "err": f"{type(e).__name__}: {e}", "tb": traceback.format_exc()}
+                    with os.fdopen(w, "w") as wf:
+                        json.dump(out, wf)
+                    os._exit(0)
+                os.close(w)
+                with os.fdopen(r) as rf:
+                    txt = rf.read()
+                os.waitpid(pid, 0)
+                out = json.loads(txt) if txt.strip() else {"ok": None, "err": "replay child died without a result", "tb": ""}
+                if out["ok"] is True:
                     ctx.regressions_ok += 1
-                except Violation as v:
-                    ctx.regressions.append((path, v))
+                elif out["ok"] is False:
+                    ctx.regressions.append((path, Violation(out["key"], out["what"], body["trace"])))
+                else:
+                    raise HarnessError(f"regression replay {os.path.basename(path)} failed to run: {out['err']}\n{out.get('tb', '')}")
             rc = mod.run(ctx)
         sys.stdout.flush()
         sys.stderr.flush()
